@@ -53,3 +53,13 @@ CLAIMED["C14"] = {
   "note": "Chunk independence itself is a relation over all chunkings and is not decided; only state-reset / guard / ordering conditions whose violation makes the outcome depend on where a chunk boundary falls.",
   "technique": "field-effect analysis (EFF) + control dependence + must-pass-through on MIR",
 }
+CLAIMED["C08"] = {
+  "text": "Decides structural clauses of C08 over all call sites of the decoders: every unchecked construction in the IPC array decoder is control dependent on (or parameterised by) UnsafeFlag::get(), and the skip-validation switches are `unsafe fn`; across all decoders of untrusted input (IPC, Flight, Parquet, JSON, Avro, CSV, Variant) unsafe unchecked constructors are called only from 27 audited (function, constructor) pairs; no size decoded from the wire reaches an allocation without min()/a bounded helper/a preceding validating call (found and fixed the thrift list preallocation and the IPC footer allocation; the Parquet page-header allocation is a recorded finding with a 25-byte demo); the CSV decoder checks field boundaries (found and fixed); Variant try_new constructors return Ok only through full validation.",
+  "note": "Does not decide absence of slice-index panics or unbounded loops in general, nor the arithmetic of the validators named in the inventory. The inventory table carries one reason per entry and is the reference for later changes.",
+  "technique": "control dependence + backward slices from allocation sites to wire-integer sources + audited call inventory (MIR, custom rustc driver)",
+}
+CLAIMED["C11"] = {
+  "text": "Decides structural clauses of C11: every DataType constructor RowConverter::supports_datatype definitely accepts (31) is routed to an implementation in all four row-format tables (Codec::new, row_lengths, encode_column, decode_column); a RowConfig with validate_utf8 = false is built only in unsafe fns or the audited converter-internal site, Rows::push and convert_rows propagate the flag, decode_string/decode_string_view validate when it is set; convert_rows and Rows::push assert that rows come from this converter before the unsafe decode.",
+  "note": "Order preservation, injectivity and inversion of the encoding are value-level and not decided.",
+  "technique": "three-valued dispatch-table evaluation per enum constructor + field/flag dataflow on MIR",
+}
